@@ -168,7 +168,7 @@ class Task:
             self.finish()
         except OSError:
             self.close_on_finish = True
-            if self.channel.adj.log_socket_errors:
+            if self.channel.adj.log_socket_errors or not self.wrote_header:
                 raise
 
     @property
